@@ -228,6 +228,9 @@ pub fn write_evidence(
 ) {
     let dir = verif_dir().join("evidence");
     let _ = std::fs::create_dir_all(&dir);
+    let mut coverage = coverage;
+    coverage.put("verif_commit", Json::s(&std::env::var("VERIF_COMMIT").unwrap_or_else(|_| "unknown".into())));
+    coverage.put("repository_tree", Json::s(&std::env::var("VERIF_REPO_COMMIT").unwrap_or_else(|_| "unknown".into())));
     let doc = Json::obj()
         .set("property_id", Json::s(property))
         .set("tier", Json::s(tier))
